@@ -105,19 +105,17 @@ def attach(cfg, owner, how, fail_first=False):
         return sut(helpers.attach_shared_memory, TYPE_OF[kind], dict(owner.args), owner.shm.name)
     v = sut(make_sketch, cfg)
     if fail_first:
-        mods = (cmmod, hhmod, hlmod)
-        saved = [m.SharedMemory for m in mods]
-        for m in mods:
-            m.SharedMemory = _FailOnce(m.SharedMemory)
+        from vf.fakectx import RecordingSharedMemory
+
+        RecordingSharedMemory.fail_next_attach = 1  # the next shm_open of an existing block fails (out of file descriptors)
         try:
             try:
                 v.attach_existing_shm(owner.shm.name)
-                raise common.HarnessError("injected attach failure did not surface")
+                # an implementation that needs no new mapping (it already holds one) is not affected by the fault
             except OSError:
                 pass  # the caller catches the transient error ...
         finally:
-            for m, sv in zip(mods, saved):
-                m.SharedMemory = sv
+            RecordingSharedMemory.fail_next_attach = 0
     sut(v.attach_existing_shm, owner.shm.name)  # ... and (re)tries with the same block name
     return v
 
